@@ -2,6 +2,7 @@ package conc
 
 import (
 	"math/rand"
+	"runtime"
 	"sync"
 	"sync/atomic"
 	"time"
@@ -30,13 +31,48 @@ func init() {
 	Components["sem"] = SemHistories
 }
 
+// yieldStore is a memory store whose calls yield the processor now and then: it widens any window in which the
+// wrapper above it works without holding its lock (it changes nothing for a wrapper that holds its lock).
+type yieldStore struct {
+	kvdb.Store
+	n uint32
+}
+
+func (y *yieldStore) tick() {
+	switch atomic.AddUint32(&y.n, 1) % 3 {
+	case 0:
+		runtime.Gosched()
+	case 1:
+		time.Sleep(30 * time.Microsecond)
+	}
+}
+func (y *yieldStore) GetSnapshot() (kvdb.Snapshot, error) {
+	s, err := y.Store.GetSnapshot()
+	y.tick()
+	return s, err
+}
+func (y *yieldStore) Get(k []byte) ([]byte, error) { v, err := y.Store.Get(k); y.tick(); return v, err }
+func (y *yieldStore) NewBatch() kvdb.Batch         { return &yieldBatch{y.Store.NewBatch(), y} }
+
+type yieldBatch struct {
+	kvdb.Batch
+	y *yieldStore
+}
+
+func (b *yieldBatch) Write() error { b.y.tick(); err := b.Batch.Write(); b.y.tick(); return err }
+
 // FlushHistories: concurrent histories on flushable.Wrap(memorydb).
 func FlushHistories(h *Hist, seed int64, runs int, stats map[string]int) {
 	for run := 0; run < runs; run++ {
 		r := rand.New(rand.NewSource(seed*104729 + int64(run)))
-		under := memorydb.New()
+		var under kvdb.Store = memorydb.New()
+		if run%2 == 1 {
+			under = &yieldStore{Store: under}
+		}
 		f := flushable.Wrap(under)
 		h.Reset(rec{"scen": run + 1})
+		var sidCtr int32
+		snapFocus := run%4 == 3 // histories made of put / flush / snapshot / snapshot-read only
 		G := 2 + r.Intn(3)
 		per := 2 + r.Intn(3)
 		var wg sync.WaitGroup
@@ -47,7 +83,26 @@ func FlushHistories(h *Hist, seed int64, runs int, stats map[string]int) {
 				for i := 0; i < per; i++ {
 					perturb(gr)
 					k, v := 1+gr.Intn(4), 1+gr.Intn(3)
-					switch gr.Intn(12) {
+					op := gr.Intn(14)
+					if snapFocus {
+						op = []int{0, 7, 12, 12}[gr.Intn(4)]
+						k = 1 + gr.Intn(2)
+					}
+					switch op {
+					case 12, 13:
+						sid := int(atomic.AddInt32(&sidCtr, 1))
+						h.Call(g, rec{"op": "snap", "sid": sid})
+						sn, err := f.GetSnapshot()
+						h.Ret(g, rec{"ok": err == nil})
+						if err == nil {
+							perturb(gr)
+							h.Call(g, rec{"op": "sget", "sid": sid, "k": k})
+							h.Ret(g, getRes(sn.Get(key(k))))
+							k2 := 1 + gr.Intn(4)
+							h.Call(g, rec{"op": "sget", "sid": sid, "k": k2})
+							h.Ret(g, getRes(sn.Get(key(k2))))
+							sn.Release()
+						}
 					case 0, 1, 2:
 						h.Call(g, rec{"op": "put", "k": k, "v": v})
 						err := f.Put(key(k), []byte{byte(v)})
